@@ -474,6 +474,16 @@ def align(stmts: T.List[str], after: str) -> T.List[T.Tuple[int, int, str]]:
                     f = after.find(anchor, f + 1, q)
                 if f >= 0:
                     return rec(i, k, p, f) + rec(k + 1, j, f + len(stmts[k]), q)
+        # two adjacent statements changed: split where the head of the later one starts a line (needed to keep one text per
+        # statement for the following steps of a sequence, and to judge each of them against what may change)
+        for k in range(i + 1, j):
+            h = _head(stmts[k])
+            if h.strip():
+                f = after.find(h, p, q)
+                while f >= 0 and not (f == p or after[f - 1] == '\n'):
+                    f = after.find(h, f + 1, q)
+                if f > p:
+                    return rec(i, k, p, f) + rec(k, j, f, q)
         return [(i, j, after[p:q])]
 
     return rec(0, n, 0, len(after))
@@ -1234,8 +1244,8 @@ class Judge:
             if after == before_texts:
                 if expect == 'may':
                     continue
-                if exp == snap:
-                    continue          # nothing was asked for (info, add of present file...)
+                if exp == snap or snap_diff(exp, snap, {}) is None:
+                    continue          # nothing was asked for (info, add of a present file, set of the value the keyword already has...)
                 return self.fail(f'no-effect/{self.opclass(step)}',
                                  f'{what} exited 0 but changed nothing ({r.err.strip()[-300:]!r})\nfiles:\n{self.show(before_texts)}')
             # -- locality, statement by statement
@@ -1255,7 +1265,7 @@ class Judge:
                         keep = ''.join(old[k] for k in range(i, j) if k not in allowed.get(rel, ()))
                         ok = ''.join(txt.split()) .endswith(''.join(keep.split())) and txt.strip().endswith(keep.strip())
                     if not ok:
-                        return self.fail(self.locality_sig(before_texts[rel], old, i, j),
+                        return self.fail(self.locality_sig(before_texts[rel], old, i, j, step, txt),
                                          f'{what}: text outside the addressed statement(s) changed in {rel}: original statement(s) #{i}..{j - 1} '
                                          f'{"".join(old[i:j])!r} became {txt!r}; allowed to change: {sorted(allowed.get(rel, ()))}\n{self.show_diff(before_texts, after)}')
                     touched_old.extend(old[i:j])
@@ -1386,11 +1396,19 @@ class Judge:
             return '`meson rewrite ' + ' '.join(step_argv(step)) + '`'
         return '`meson rewrite command ' + json.dumps([strip_private(c) for c in step['cmds']]) + '`'
 
-    def locality_sig(self, text: str, old: T.List[str], i: int, j: int) -> str:
+    def locality_sig(self, text: str, old: T.List[str], i: int, j: int, step: T.Optional[dict] = None, txt: str = '') -> str:
         if any(c in text for c in ODD_SEPARATORS):
             return 'splice/odd-line-separator'
         if raw_newline_strings(text):
             return 'splice/after-raw-newline-string'
+        was = ''.join(old[i:j])
+        for c in (step or {}).get('cmds', []):
+            if c['type'] == 'target' and c['operation'] in ('src_add', 'extra_files_add'):
+                names = ["'" + os.path.basename(f) + "'" for f in c.get('sources', [])] + ['/' + os.path.basename(f) + "'" for f in c.get('sources', [])]
+                if any(n in txt and n not in was for n in names):
+                    # the new file went into a list outside the data flow of the addressed argument (a list that the source
+                    # expression only mentions in a condition / comparison / index)
+                    return 'effect/add:foreign-list-extended'
         return 'locality/other-statement-changed'
 
     def value_sig(self, step: dict, what: str, touched_old: T.List[str]) -> str:
@@ -1538,6 +1556,9 @@ KNOWN_PROBES: T.List[ProbeT] = [
                                                                   'kwargs': {'install': 'false'}, '_allowed': [[BUILD_FILE, 1]]}]}])),
     ('reprint/string-multiline', "triple-quoted string with trailing blanks and an empty line in a re-printed call",
      lambda: _add(_prog("install_rpath: '''a  \n\nb'''"), 1)),
+    ('effect/add:foreign-list-extended', 'src_add to a target whose source list mentions a list variable in a ternary condition',
+     lambda: mk({BUILD_FILE: ["project('p')\n", "v = [2]\n", "executable('prog', [v != [9] ? 'a.c' : 'a.c', 'b.c'])\n", "tail = 1\n"]},
+                [tcmd('prog', 'src_add', ['new.c'], _allowed=[[BUILD_FILE, 2]])])),
 ]
 
 FIXED_PROBES: T.List[ProbeT] = [
@@ -1640,6 +1661,7 @@ class TreeGen:
         self.files: T.Dict[str, T.List[T.Any]] = {BUILD_FILE: []}     # entries: statement AST or raw text
         self.n = 0
         self.reprintable = True      # False while expressions are drawn for statements no command can re-print
+        self.tainted: T.Set[str] = set()     # variables a list literal flows into (the tool's data flow: not through method / function calls)
 
     # -- draws
     def i(self, n: int) -> int:
@@ -1785,7 +1807,8 @@ class TreeGen:
             names = [k for k, v in self.values.items() if isinstance(v, str)]
             if names and self.chance(40):
                 return ['id', self.pick(names)]
-            return ['str', self.pick(['-DX=', 'foo', 'a b', 'lib', 'x_']), 's']
+            # (source text between the quotes: escapes for quote, backslash, CR, LF, tab are part of what must survive a re-print)
+            return ['str', self.pick(['-DX=', 'foo', 'a b', 'lib', 'x_', "it\\'s", 'C:\\\\dir', 'l1\\r\\nl2', 'cr\\rx', 't\\tb', 'é✓']), 's']
 
         def int_trap() -> list:
             k = self.i(11)
@@ -1885,6 +1908,21 @@ class TreeGen:
         self.files.setdefault(rel, []).append(entry)
         return len(self.files[rel]) - 1
 
+    def list_flows(self, e: T.Any, inline: bool = True) -> bool:
+        """does a list literal reach the value of e in the tool's data-flow graph?  (every sub-expression counts - condition of a
+        ternary, operand of a comparison, index - except what lies under a method call or a function call other than files() /
+        get_variable(), mesonbuild/ast/interpreter.py is_ignored_edge).  inline=False: only through variables."""
+        if not isinstance(e, list) or not e:
+            return False
+        k = e[0]
+        if k == 'meth' or (k == 'call' and e[1] not in ('files', 'get_variable')):
+            return False
+        if k == 'arr' and inline:
+            return True
+        if k == 'id':
+            return e[1] in self.tainted
+        return any(self.list_flows(c, inline) for c, _m, _c in child_slots(e))
+
     def literal_vars(self) -> None:
         RG = self.RG
         g = self.g
@@ -1918,6 +1956,8 @@ class TreeGen:
             self.values[name] = v
             g.env[name] = t
             self.add(BUILD_FILE, ['assign', name, R.lit_of(v)])
+            if self.list_flows(R.lit_of(v)):
+                self.tainted.add(name)
         for _ in range(self.i(3)):
             t = self.pick([RG.INT, RG.BOOL, RG.STR])
             self.reprintable = False          # an assignment of a scalar is never re-printed
@@ -1930,6 +1970,8 @@ class TreeGen:
                 continue
             g.env[name] = t
             self.add(BUILD_FILE, ['assign', name, e])
+            if self.list_flows(e):
+                self.tainted.add(name)
 
     def kw_value(self, typ: str) -> list:
         RG = self.RG
@@ -2113,7 +2155,11 @@ class TreeGen:
             if form == 0:
                 el: list = ['bin', '+', ['str', n0[:cut], 's'], ['str', n0[cut:], 's']]
             elif form == 1:
-                el = ['tern', self.expr(self.RG.BOOL, 1), ['str', n0, 's'], ['str', n0, 's']]
+                cond = self.expr(self.RG.BOOL, 1)
+                el = ['tern', cond, ['str', n0, 's'], ['str', n0, 's']]
+                # a list VARIABLE mentioned in the condition lies earlier in the file than any source list: known finding
+                # effect/add:foreign-list-extended (an inline list in the condition lies behind the '[' of the source list: harmless)
+                out['foreign_cond'] = self.list_flows(cond, inline=False)
             else:
                 el = ['meth', ['str', '@0@' + n0[cut:], 's'], 'format', [[None, ['str', n0[:cut], 's']]]]
             out['args'] = [['arr', [el] + self.strs(names[1:])]]
@@ -2214,6 +2260,7 @@ class TreeGen:
             'extra_vars': (list(extra['vars']) if extra else []),
             'extra_files': ({os.path.normpath(os.path.join(d, s)): {'literal': lit, 'shared': sh} for s, d, lit, sh in extra['files']} if extra else {}),
             'kwlit': {k: self.is_literal_kw(v) for k, v in kws},
+            'src_foreign': any(p.get('foreign_cond') for p in pieces), 'extra_foreign': bool(extra and extra.get('foreign_cond')),
         }
 
     @staticmethod
@@ -2340,6 +2387,7 @@ class TreeGen:
         snap = copy.deepcopy(model.snapshot())
         env = model.env
         alive = [t['name'] for t in snap['targets']]
+        original = list(alive)
         added: T.List[str] = []
         cmds: T.List[dict] = []
         law: T.Optional[str] = None
@@ -2360,6 +2408,13 @@ class TreeGen:
 
         def cur(name: str) -> dict:
             return next(t for t in snap['targets'] if t['name'] == name)
+
+        def foreign(name: str, field: str) -> bool:
+            if self.tmeta[name].get(field + '_foreign') and 'add-foreign-list' in self.excluded:
+                self.excl['src_add / extra_files_add on a target whose source expression mentions a list variable in a ternary condition '
+                          '(effect/add:foreign-list-extended)'] += 1
+                return True
+            return False
 
         def subject() -> str:
             # the property is about the OTHER arguments of the re-printed statement: prefer targets whose call carries a non-trivial one
@@ -2404,6 +2459,8 @@ class TreeGen:
             k = self.g.weighted(kinds)
             if k == 'src_add':
                 name = subject()
+                if foreign(name, 'src'):
+                    return
                 push(src_cmd(name, 'src_add', new_files(name, '.c')))
                 self.tmeta[name].setdefault('fresh', set()).update(cmds[-1]['sources'])
             elif k == 'src_rm':
@@ -2420,6 +2477,8 @@ class TreeGen:
                 name = subject()
                 if tmeta(name).get('extra_scalar') and 'extra-scalar' in self.excluded:
                     self.excl['extra_files_add on a target whose extra_files is a single string (effect/extra_files_add:no-longer-evaluates)'] += 1
+                    return
+                if foreign(name, 'extra'):
                     return
                 push(src_cmd(name, 'extra_files_add', new_files(name, '.h')))
                 self.tmeta[name].setdefault('fresh', set()).update(cmds[-1]['sources'])
@@ -2563,10 +2622,11 @@ class TreeGen:
                 which = self.i(4)
                 if which == 0:
                     push(tcmd('no_such_target', self.pick(['src_add', 'src_rm', 'target_rm', 'extra_files_add']), ['x.c'], _expect='error'))
-                elif which == 1 and alive:
-                    push(tcmd(self.pick(alive), 'target_add', ['x.c'], _expect='error'))
-                elif which == 2 and alive:
-                    push({'type': 'kwargs', 'function': 'target', 'id': self.pick(alive), 'operation': 'set', 'kwargs': {'c_args': '-Dx'}, '_expect': 'error'})
+                elif which == 1 and original:
+                    # (a name of the tree as it is: the error command stands alone, earlier commands of this plan are dropped)
+                    push(tcmd(self.pick(original), 'target_add', ['x.c'], _expect='error'))
+                elif which == 2 and original:
+                    push({'type': 'kwargs', 'function': 'target', 'id': self.pick(original), 'operation': 'set', 'kwargs': {'c_args': '-Dx'}, '_expect': 'error'})
                 else:
                     push({'type': 'default_options', 'operation': 'set', 'options': {'no_such_option': '1'}, '_expect': 'error'})
 
@@ -2574,12 +2634,16 @@ class TreeGen:
         if plan == 'law' and alive:
             name = subject()
             which = self.i(3)
-            if which == 0:
+            if which == 0 and foreign(name, 'src'):
+                pass
+            elif which == 0:
                 fs = new_files(name, '.c')
                 push(src_cmd(name, 'src_add', fs))
                 self.tmeta[name].setdefault('fresh', set()).update(fs)
                 push(src_cmd(name, 'src_rm', fs))
                 law = 'restore-sources'
+            elif which == 1 and foreign(name, 'src'):
+                pass
             elif which == 1:
                 have = [f for f in cur(name)['sources'] if self.tmeta[name]['src_files'].get(f, {}).get('literal') and not self.tmeta[name]['src_files'].get(f, {}).get('shared')]
                 if have:
@@ -2588,7 +2652,7 @@ class TreeGen:
                     self.tmeta[name].setdefault('fresh', set()).add(f0)
                     push(src_cmd(name, 'src_add', [f0]))
                     law = 'restore-sources'
-            elif not (self.tmeta[name].get('extra_scalar') and 'extra-scalar' in self.excluded):
+            elif not (self.tmeta[name].get('extra_scalar') and 'extra-scalar' in self.excluded) and not foreign(name, 'extra'):
                 fs = new_files(name, '.h')
                 push(src_cmd(name, 'extra_files_add', fs))
                 self.tmeta[name].setdefault('fresh', set()).update(fs)
@@ -2601,7 +2665,8 @@ class TreeGen:
                     break
                 one()
         if not cmds and alive:
-            push(src_cmd(alive[0], 'src_add', ['fallback_new.c']))
+            plain = [n for n in alive if not (self.tmeta[n].get('src_foreign') and 'add-foreign-list' in self.excluded)]
+            push(src_cmd(plain[0], 'src_add', ['fallback_new.c']) if plain else tcmd(alive[0], 'info'))
         # an error command stands alone
         if any(c.get('_expect') == 'error' for c in cmds):
             cmds = [c for c in cmds if c.get('_expect') == 'error'][:1]
@@ -2743,6 +2808,7 @@ EXCLUDES = {
     'crash/target_rm:IndexError-string-index-out-of-range': ['rm-last-assignment'],
     'effect/extra_files_add:no-longer-evaluates': ['extra-scalar'],
     'reprint/string-multiline': ['multiline-trailing-ws'],
+    'effect/add:foreign-list-extended': ['add-foreign-list'],
 }
 
 
